@@ -680,7 +680,11 @@ class _ActionSubCommands(_SubParsersAction):
         # parse arguments
         if subcommand in self._name_parser_map:
             subparser = self._name_parser_map[subcommand]
-            subnamespace = namespace.get(subcommand).clone() if subcommand in namespace else None
+            subnamespace = namespace.get(subcommand) if subcommand in namespace else None
+            if isinstance(subnamespace, Namespace):
+                subnamespace = subnamespace.clone()
+            elif subnamespace is not None:
+                raise TypeError(f'Parser key "{subcommand}": expected the settings of the subcommand, got {subnamespace!r}')
             kwargs = dict(_skip_validation=True, **parse_kwargs.get())
             namespace[subcommand] = subparser.parse_args(arg_strings, namespace=subnamespace, **kwargs)
 
@@ -802,7 +806,12 @@ class _ActionSubCommands(_SubParsersAction):
 
             # Update all subcommand settings
             if subnamespace is not None:
-                cfg[key] = subparser.merge_config(cfg.get(key, Namespace()), subnamespace)
+                section = cfg.get(key)
+                if section is None:
+                    section = Namespace()
+                elif not isinstance(section, Namespace):
+                    raise TypeError(f'Parser key "{key}": expected the settings of the subcommand, got {section!r}')
+                cfg[key] = subparser.merge_config(section, subnamespace)
 
             # Handle inner subcommands
             if subparser._subparsers is not None:
